@@ -435,6 +435,53 @@ Proof. intros ND P L1 L2.
 Definition requeue (Q : list item) (D : list id) : list item :=
   map (fun it => (fst it, true)) (filter (fun it => negb (memb (fst it) D)) Q).
 
+(* resolving in phases: first the set Q1, then - on the resulting world - the set Q2, gives what one resolution of both sets
+   gives, provided no condition of Q1 reads a node of Q2 (lyd_new_implicit_module: the new top-level nodes first, then
+   the new nested nodes root by root) *)
+Lemma memb_app x D1 D2 : memb x (D1 ++ D2) = memb x D1 || memb x D2.
+Proof. unfold memb. apply existsb_app. Qed.
+
+Lemma wof_app w0 D1 D2 : wof (wof w0 D1) D2 = wof w0 (D1 ++ D2).
+Proof. unfold wof. induction w0 as [|p w IH]; [reflexivity|]. cbn [filter]. rewrite memb_app.
+  destruct (memb (fst p) D1); cbn [negb orb filter]; [exact IH|].
+  destruct (memb (fst p) D2); cbn [negb]; [exact IH | f_equal; exact IH]. Qed.
+
+Lemma NoDup_app_parts (l1 l2 : list nat) : NoDup (l1 ++ l2) ->
+  NoDup l1 /\ NoDup l2 /\ forall x, In x l1 -> In x l2 -> False.
+Proof. induction l1 as [|a l IH]; cbn; intros H.
+  - split; [constructor|]. split; [assumption|easy].
+  - inversion H as [|? ? NI ND]; subst. destruct (IH ND) as [A [B C]]. split.
+    + constructor; [|assumption]. intros F. apply NI. apply in_or_app. now left.
+    + split; [assumption|]. intros x [E|Hx] H2.
+      * subst. apply NI. apply in_or_app. now right.
+      * exact (C x Hx H2). Qed.
+
+Theorem run_split w0 Q1 Q2 f1 f2 f w1 w2 :
+  NoDup (qids (Q1 ++ Q2)) ->
+  (forall n wt d, In (n, wt) Q1 -> In d (deps n) -> ~ In d (qids Q2)) ->
+  run f1 w0 Q1 = Done w1 -> run f2 w1 Q2 = Done w2 -> length (Q1 ++ Q2) <= f ->
+  run f w0 (Q1 ++ Q2) = Done w2.
+Proof. intros ND Hd H1 H2 L.
+  assert (ND' := ND). unfold qids in ND'. rewrite map_app in ND'.
+  destruct (NoDup_app_parts _ _ ND') as [ND1 [ND2 Disj]].
+  destruct (run_sound w0 Q1 ND1 f1 w1 H1) as [D1 [E1 S1]]. subst w1.
+  destruct (run_sound (wof w0 D1) Q2 ND2 f2 w2 H2) as [D2 [E2 S2]]. subst w2.
+  rewrite wof_app. apply run_complete; [|exact L]. split.
+  - intros x Hx. unfold qids. rewrite map_app. apply in_or_app. apply in_app_or in Hx.
+    destruct Hx as [Hx|Hx]; [left; exact (proj1 S1 x Hx) | right; exact (proj1 S2 x Hx)].
+  - intros n wt Hn. rewrite memb_app. apply in_app_or in Hn. destruct Hn as [Hn|Hn].
+    + assert (N2 : memb n D2 = false).
+      { apply memb_false. intros A. apply (Disj n); [apply in_map_iff; exists (n, wt); auto | exact (proj1 S2 n A)]. }
+      rewrite N2, orb_false_r.
+      assert (EC : cond n (wof w0 (D1 ++ D2)) = cond n (wof w0 D1)).
+      { apply cond_deps. apply agree_wof. intros d Hdd. rewrite memb_app.
+        assert (M : memb d D2 = false); [|now rewrite M, orb_false_r].
+        apply memb_false. intros A. exact (Hd n wt d Hn Hdd (proj1 S2 d A)). }
+      rewrite EC. exact (proj2 S1 n wt Hn).
+    + assert (N1 : memb n D1 = false).
+      { apply memb_false. intros A. apply (Disj n); [exact (proj1 S1 n A) | apply in_map_iff; exists (n, wt); auto]. }
+      rewrite N1. cbn [orb]. rewrite <- wof_app. exact (proj2 S2 n wt Hn). Qed.
+
 Lemma filter_len_le {A} (f : A -> bool) l : length (filter f l) <= length l.
 Proof. induction l as [|a l IH]; cbn; [lia|]. destruct (f a); cbn; lia. Qed.
 
@@ -512,4 +559,12 @@ Proof. intros A ND H.
   exists D. split; [assumption|]. subst w'.
   apply (run_idempotent nat (pcond p) (pdeps p) (fun x => x) (acyclicb_spec p A)
            (fun n w1 w2 H => ceval_agree (expr_of p n) w1 w2 H) w Q (length Q) _ D ND H S).
+  apply le_n. Qed.
+
+Theorem wrun_split p w Q1 Q2 w1 w2 : acyclicb p = true -> NoDup (map fst (Q1 ++ Q2)) ->
+  (forall n wt d, In (n, wt) Q1 -> In d (pdeps p n) -> ~ In d (map fst Q2)) ->
+  wrun p w Q1 = Done w1 -> wrun p w1 Q2 = Done w2 -> wrun p w (Q1 ++ Q2) = Done w2.
+Proof. intros A ND Hd H1 H2.
+  apply (run_split nat (pcond p) (pdeps p) (fun x => x) (acyclicb_spec p A)
+           (fun n w1 w2 H => ceval_agree (expr_of p n) w1 w2 H) w Q1 Q2 (length Q1) (length Q2) _ w1 w2 ND Hd H1 H2).
   apply le_n. Qed.
